@@ -25,6 +25,11 @@ Proof. intros. now apply insert_is_list_insert. Qed.
 Theorem C14_slicing : forall w its tr k, 0 < w -> wfA w its tr ->
   arr_getslice w (mk its tr) k = res_map (@concat bool) (seq_slice [] its k).
 Proof. intros. now apply getslice_is_list_slice. Qed.
+Theorem C14_pop : forall w its tr i, 0 < w -> wfA w its tr ->
+  arr_pop w (mk its tr) i = match pyidx (zlen its) i with
+                            | Some k => Ok (nth (Z.to_nat k) its [], mk (list_del its (Z.to_nat k)) tr)
+                            | None => Err IndexError end.
+Proof. intros. now apply pop_is_list_pop. Qed.
 Example C14_slicing_nonvacuous :
   arr_getslice 2 [true;false; false;true; true;true; false;false; true] (mkslice (Some 3) None (Some (-2))) = Ok [false;false; false;true].
 Proof. vm_compute. reflexivity. Qed.
@@ -36,3 +41,4 @@ Print Assumptions C14_append.
 Print Assumptions C14_append_refused_with_trailing_bits.
 Print Assumptions C14_insert.
 Print Assumptions C14_slicing.
+Print Assumptions C14_pop.
